@@ -261,6 +261,18 @@ pub fn create_table(a: &Value) -> String {
 
 /// One abstract action -> the SQL text that performs it ("" when the action is not SQL text).
 pub fn action(a: &Value) -> String {
+    if b(a, "lc") {
+        // same statement with the table name spelled in lower case (unquoted identifiers are case-insensitive)
+        let mut a2 = a.clone();
+        a2["lc"] = Value::Bool(false);
+        if let Some(t) = a["t"].as_str() {
+            a2["t"] = Value::String(t.to_lowercase());
+        }
+        if let Some(n) = a["n"].as_str() {
+            a2["n"] = Value::String(n.to_lowercase());
+        }
+        return action(&a2);
+    }
     match s(a, "a") {
         "ct" => create_table(a),
         "dt" => format!("DROP TABLE {}", s(a, "t")),
@@ -334,7 +346,13 @@ pub fn action(a: &Value) -> String {
             format!("CREATE VIEW {}{} AS {}", s(a, "n"), cols, query(&a["q"]))
         }
         "dv" => format!("DROP VIEW {}", s(a, "n")),
-        "q" | "cq" => query(&a["q"]),
+        "q" | "cq" => {
+            if let Some(raw) = a["raw"].as_str() {
+                raw.to_string()
+            } else {
+                query(&a["q"])
+            }
+        }
         "addcol" => {
             let c = &a["col"];
             let mut t = format!("ALTER TABLE {} ADD COLUMN {} {}", s(a, "t"), s(c, "n"), s(c, "ty"));
@@ -344,7 +362,8 @@ pub fn action(a: &Value) -> String {
             t
         }
         "dropcol" => format!("ALTER TABLE {} DROP COLUMN {}", s(a, "t"), s(a, "c")),
-        "rencol" => format!("ALTER TABLE {} RENAME COLUMN {} TO {}", s(a, "t"), s(a, "c"), s(a, "to")),
+        // the parser has no RENAME COLUMN; MySQL-style CHANGE COLUMN old new <type> renames
+        "rencol" => format!("ALTER TABLE {} CHANGE COLUMN {} {} {}", s(a, "t"), s(a, "c"), s(a, "to"), s(a, "ty")),
         "addcheck" => format!("ALTER TABLE {} ADD CONSTRAINT {} CHECK ({})", s(a, "t"), s(a, "n"), expr(&a["e"])),
         "adduq" => format!("ALTER TABLE {} ADD CONSTRAINT {} UNIQUE ({})", s(a, "t"), s(a, "n"), names(a, "cols")),
         "addfk" => {
